@@ -311,8 +311,7 @@ theorem opusSilkIn_ok (apiFs mode bw frameRate maxDataBytes : Int) (allow can : 
   · simp only [show ((1000 : Int) = 1001) = False by decide, if_false, if_true]
     generalize rateOfBw bw = d at *
     generalize rateOfBw L = DL at *
-    by_cases h8 : eff < 8000 <;> by_cases h7 : eff < 7000 <;> simp only [h8, h7, if_true, if_false] <;>
-      (refine ⟨⟨hapi, ?_, ?_, ?_, ?_⟩, ?_, ?_, ?_, ?_⟩ <;> (try dsimp only) <;> omega)
+    refine ⟨⟨hapi, ?_, ?_, ?_, ?_⟩, ?_, ?_, ?_, ?_⟩ <;> (try dsimp only) <;> (try split) <;> (try split) <;> (first | omega | exact Or.inl trivial)
   · have hd : rateOfBw bw = 16000 := by unfold rateOfBw; consts; rw [if_neg (by omega), if_neg (by omega)]
     simp only [show ((1001 : Int) = 1000) = False by decide, if_false, if_true, hd] at *
     generalize rateOfBw L = DL at *
